@@ -23,7 +23,7 @@ type FileSpec struct {
 	CtxAlias string `json:"ctxalias,omitempty"` // alias for "context" ("" = plain)
 	CffAlias string `json:"cffalias,omitempty"` // alias for go.uber.org/cff
 	Layout   int    `json:"layout,omitempty"`   // bit 0: CRLF line endings, bit 1: no newline at the end of the file, bit 2: //go:generate and a doc comment between the constraint and the package clause, bit 3: no blank line between a //go:build line and the package clause
-	OddImp   int    `json:"oddimp,omitempty"`   // 1: imports vcase/odd/v2 (package odd), 2: math/rand/v2 (package rand), both without an explicit name
+	OddImp   int    `json:"oddimp,omitempty"`   // 1: imports vcase/odd/v2 (package odd), 2: math/rand/v2 (package rand), 3: vcase/twin/v3 (package debug), all without an explicit name
 	TimeImp  string `json:"timeimp,omitempty"`  // "", "plain" (imports time), "alias" (tm "time"), "collide" (another package imported as time)
 }
 
@@ -276,7 +276,7 @@ func (pr *progRender) fnExpr(sp string, unit int, sigStr string, body []string, 
 		d += "}\n"
 		pr.decls = append(pr.decls, d)
 		if !pr.s.Wrap && pr.s.Bare {
-			pr.pre = append(pr.pre, "defer func(sv "+plainSig+") {\n\t\tif env.Solo {\n\t\t\tpv_"+name+" = sv\n\t\t}\n\t}(pv_"+name+")")
+			pr.pre = append(pr.pre, "defer func(sv "+sigStr+") {\n\t\tif env.Solo {\n\t\t\tpv_"+name+" = sv\n\t\t}\n\t}(pv_"+name+")")
 			pr.poison = append(pr.poison, "if env.Solo { pv_"+name+" = nil }")
 		}
 		return "pv_" + name
@@ -621,7 +621,7 @@ func (pr *progRender) render() string {
 	for i, idx := range permFor(s.Order, len(opts), 0) {
 		o := opts[idx]()
 		if s.Shadow {
-			o = reEnv.ReplaceAllString(o, shadowNames[i%len(shadowNames)])
+			o = reEnv.ReplaceAllString(o, shadowFor(o, i))
 		}
 		if s.Paren {
 			o = "(" + o + ")"
@@ -640,7 +640,7 @@ func (pr *progRender) render() string {
 	if s.Shadow {
 		ctxE = reEnv.ReplaceAllString(ctxE, shadowNames[0])
 		for i, p := range pr.pre {
-			pr.pre[i] = reEnv.ReplaceAllString(p, shadowNames[(i+3)%len(shadowNames)])
+			pr.pre[i] = reEnv.ReplaceAllString(p, shadowFor(p, i+3))
 		}
 	}
 	s.NArgs = pr.argK
@@ -766,6 +766,18 @@ var shadowNames = []string{"sched", "emitter", "tasks", "task0", "v1", "flowInfo
 
 var reEnv = regexp.MustCompile(`\benv\b`)
 
+// shadowFor picks the k-th shadow name, skipping names the text already uses
+// as an identifier of its own (a slice function's idx parameter, ...).
+func shadowFor(text string, k int) string {
+	for d := 0; d < len(shadowNames); d++ {
+		n := shadowNames[(k+d)%len(shadowNames)]
+		if !regexp.MustCompile(`\b` + n + `\b`).MatchString(text) {
+			return n
+		}
+	}
+	return shadowNames[k%len(shadowNames)]
+}
+
 var (
 	reExt  = regexp.MustCompile(`\bext\.`)
 	reExt2 = regexp.MustCompile(`\bext2\.`)
@@ -849,6 +861,10 @@ func RenderFileAs(f *FileSpec, pkgAuto bool, regSuffix string) (src, side string
 		imp("", "vcase/odd/v2") // package name (odd) differs from the last path element
 	case 2:
 		imp("", "math/rand/v2") // likewise, from the standard library
+	case 3:
+		// package debug in a directory not named after it: the name the
+		// import binds is one the generated code needs for runtime/debug
+		imp("", "vcase/twin/v3")
 	}
 	if needExt {
 		imp("", "vcase/ext")
@@ -875,6 +891,8 @@ func RenderFileAs(f *FileSpec, pkgAuto bool, regSuffix string) (src, side string
 		x.f("var _ = odd.Marker // used only outside the directives")
 	case 2:
 		x.f("func oddRand%d() int { return rand.IntN(3) } // used only outside the directives", f.Idx)
+	case 3:
+		x.f("var _ = debug.Marker // used only outside the directives")
 	}
 	x.f("func init() {")
 	for _, s := range f.Progs {
@@ -997,8 +1015,12 @@ func SupportSource() string {
 	x.f("")
 	x.f("// G is a generic carrier.")
 	x.f("type G[T any] struct {\n\tV   T\n\tTag uint64\n}")
+	x.f("func (v G[T]) Tag1() uint64 { return v.Tag }\nfunc (v G[T]) Tag2() uint64 { return v.Tag }\nfunc (v G[T]) Tag3() uint64 { return v.Tag }")
 	for i := 1; i <= 6; i++ {
 		x.f("type T%d struct{ Tag uint64 }", i)
+		// (every T implements every I: a T value is assignable to an I parameter,
+		// so a generator that passes the wrong variable still compiles)
+		x.f("func (v T%[1]d) Tag1() uint64 { return v.Tag }\nfunc (v T%[1]d) Tag2() uint64 { return v.Tag }\nfunc (v T%[1]d) Tag3() uint64 { return v.Tag }", i)
 		x.f("func mk_T%[1]d(t uint64) T%[1]d { return T%[1]d{Tag: t} }", i)
 		x.f("func tag_T%[1]d(v T%[1]d) uint64 { return v.Tag }", i)
 		x.f("func mk_P%[1]d(t uint64) *T%[1]d {\n\tif t == 0 {\n\t\treturn nil\n\t}\n\treturn &T%[1]d{Tag: t}\n}", i)
@@ -1012,9 +1034,11 @@ func SupportSource() string {
 	}
 	for i := 1; i <= 4; i++ {
 		x.f("type N%d uint64", i)
+		x.f("func (v N%[1]d) Tag1() uint64 { return uint64(v) }\nfunc (v N%[1]d) Tag2() uint64 { return uint64(v) }\nfunc (v N%[1]d) Tag3() uint64 { return uint64(v) }", i)
 		x.f("func mk_N%[1]d(t uint64) N%[1]d { return N%[1]d(t) }", i)
 		x.f("func tag_N%[1]d(v N%[1]d) uint64 { return uint64(v) }", i)
 		x.f("type S%d string", i)
+		x.f("func (v S%[1]d) Tag1() uint64 { return tag_string(string(v)) }\nfunc (v S%[1]d) Tag2() uint64 { return tag_string(string(v)) }\nfunc (v S%[1]d) Tag3() uint64 { return tag_string(string(v)) }", i)
 		x.f("func mk_S%[1]d(t uint64) S%[1]d { return S%[1]d(mk_string(t)) }", i)
 		x.f("func tag_S%[1]d(v S%[1]d) uint64 { return tag_string(string(v)) }", i)
 		x.f("func mk_W%[1]d(t uint64) ext.W%[1]d { return ext.MkW%[1]d(t) }", i)
@@ -1165,6 +1189,7 @@ func WriteModule(dir string, p *PackageSpec, rtDir, repo string) error {
 	files["ext/ext.go"] = ExtSource(extFns)
 	files["ext2/ext2.go"] = Ext2Source()
 	files["ext4/v2/ext4.go"] = Ext4Source()
+	files["twin/v3/dbg.go"] = "// Package debug lives in a directory that is not named after it.\npackage debug\n\n// Marker is referenced by importing files.\nconst Marker = 3\n"
 	files["odd/v2/odd.go"] = "// Package odd lives in a directory that is not named after it.\npackage odd\n\n// Marker is referenced by importing files.\nconst Marker = 2\n"
 	bc := func(tag string, t, f bool, n int) string {
 		return fmt.Sprintf("//go:build %s\n\npackage p\n\n// Constants whose value depends on the build configuration. cff runs without\n// the verifb tag, the program is built with it.\nconst (\n\tbcTrue  = %v\n\tbcFalse = %v\n\tbcN     = %d\n)\n", tag, t, f, n)
